@@ -20,6 +20,7 @@ type chunkReader struct {
 	rep      int // >0: every chunk has this size
 	i, cur   int
 	fail     bool
+	withData bool // the final bytes are returned TOGETHER with the final error (io.Reader allows it)
 	consumed int
 	reads    int
 }
@@ -63,12 +64,18 @@ func (r *chunkReader) Read(p []byte) (int, error) {
 		r.cur = 0
 	}
 	r.consumed += n
+	if len(r.data) == 0 && r.withData {
+		if r.fail {
+			return n, errFail
+		}
+		return n, io.EOF
+	}
 	return n, nil
 }
 
 // chunk spec token: "-" whole, "r<k>" repeat k, or "a,b,c".
 func newChunkReader(data []byte, spec string, tail string) *chunkReader {
-	r := &chunkReader{data: append([]byte(nil), data...), fail: tail == "fail"}
+	r := &chunkReader{data: append([]byte(nil), data...), fail: tail == "fail" || tail == "faildata", withData: tail == "eofdata" || tail == "faildata"}
 	switch {
 	case spec == "-":
 	case strings.HasPrefix(spec, "r"):
